@@ -819,8 +819,10 @@ M('c05-return-all-drops-leftover', 'C05', 'fire:R5.3',
   (DR, '''        self.io.recv_buffer = b''.join(after_data_lines)
 ''', '', 1))
 M('c05-buffer-not-cleared', 'C05', 'fire:R5.3',
-  (DR, '''        self.add_lines(self.io.recv_buffer)
-        self.io.recv_buffer = b\'\'''', '''        self.add_lines(self.io.recv_buffer)''', 1))
+  (DR, '''        buffered = self.io.recv_buffer
+        self.io.recv_buffer = b\'\'
+        self.add_lines(buffered)''', '''        buffered = self.io.recv_buffer
+        self.add_lines(buffered)''', 1))
 M('c05-buffer-not-taken', 'C05', 'fire:R5.3',
   (DR, '''        self.from_recv_buffer()
         while self.recv_piece():''', '''        while self.recv_piece():''', 1))
@@ -1419,12 +1421,53 @@ M('c03-mark-released-before-timestamp', 'C03', 'fire:R3.7',
         self.active_ids.discard(id)
         wait = self.backoff(envelope, attempts)''', 1))
 M('c03-twin-remove-order', 'C03', 'silent',
-  (Q, '''        self._pool_spawn('store', self.store.remove, id)
+  (Q, '''        self._pool_spawn('store', self._remove_stored, id)
+        self.queued_ids.discard(id)''',
+   '''        self.queued_ids.discard(id)
+        self._pool_spawn('store', self._remove_stored, id)''', 1))
+M('c03-mark-released-when-removal-starts', 'C03', 'fire:R3.7',
+  (Q, '''        self._pool_spawn('store', self._remove_stored, id)
+        self.queued_ids.discard(id)''',
+   '''        self._pool_spawn('store', self._remove_stored, id)
         self.queued_ids.discard(id)
-        self.active_ids.discard(id)''',
-   '''        self._pool_spawn('store', self.store.remove, id)
-        self.active_ids.discard(id)
-        self.queued_ids.discard(id)''', 1))
+        self.active_ids.discard(id)''', 1))
+M('c03-twin-buffer-swap', 'C09', 'silent',
+  (DR, '''        buffered = self.io.recv_buffer
+        self.io.recv_buffer = b\'\'
+        self.add_lines(buffered)''', '''        buffered, self.io.recv_buffer = self.io.recv_buffer, b\'\'
+        self.add_lines(buffered)''', 1))
+M('c09-twin-take-then-clear', 'C09', 'silent',
+  (DR, '''        buffered = self.io.recv_buffer
+        self.io.recv_buffer = b\'\'
+        self.add_lines(buffered)''', '''        self.add_lines(self.io.recv_buffer)
+        self.io.recv_buffer = b\'\'''', 1))
+M('c09-buffered-bytes-not-counted', 'C09', 'fire:G6',
+  (DR, '''        after_match = piece[last:]
+        self._count_size(after_match)
+        self._append_line(after_match)''', '''        after_match = piece[last:]
+        self._append_line(after_match)''', 1))
+M('c09-count-per-read-only', 'C09', 'fire:G6',
+  (DR, '''            self._count_size(match.group(0))
+''', '', 1),
+  (DR, '''        self._count_size(after_match)
+''', '', 1),
+  (DR, '''        self.add_lines(piece)
+        return self.EOD is None''', '''        self._count_size(piece)
+        self.add_lines(piece)
+        return self.EOD is None''', 1))
+M('c09-count-after-eod', 'C09', 'fire:G6',
+  (DR, '''        if self.EOD is None:
+            self.size += len(data)
+            if self.max_size and self.size > self.max_size:
+                self.EOD = self.i
+                raise MessageTooBig()''', '''        self.size += len(data)
+        if self.max_size and self.size > self.max_size:
+            self.EOD = self.i
+            raise MessageTooBig()''', 1))
+M('c09-limit-only-at-line-end', 'C09', 'fire:G6',
+  (DR, '''            if self.max_size and self.size > self.max_size:''',
+   '''            if self.max_size and self.size > self.max_size and \\
+                    data.endswith(b'\\n'):''', 1))
 # ---- C12 Q6 (bisect) / Q8 / Q9
 M('c12-bisect-strict-cut', 'C12', 'fire:Q6',
   (Q, '''        last_i = 0
